@@ -105,6 +105,7 @@ type CheckSpec struct {
 	Workers    int                // 0 = all cores
 	VaryCPUs   bool               // run workers under different CPU affinities / GOMAXPROCS (F11)
 	DeathIsViolation bool         // C30: a worker process that dies (e.g. Go stack overflow) is the violation, not a harness error
+	Post       func(extra map[string]int) []Violation // cross-worker oracle evaluated by the parent on the merged extras
 }
 
 type WorkerCtx struct {
@@ -156,6 +157,14 @@ func init() {
 	registerPlanCheck("C26", "exploration", planRule("contract lifecycle"), 50*time.Second, 12*time.Minute, realStub)
 	registerPlanCheck("C25", "exploration", planRule("capability (issue/retarget/tag/delete, derived capabilities, publish/unpublish/get/borrow, inbox)"), 50*time.Second, 12*time.Minute, realStub)
 	checks["C26"].Worker = c26Worker
+	checks["C35"] = &CheckSpec{Prop: "C35", Level: "exploration", QuickBudget: 60 * time.Second, ThoroughBudget: 10 * time.Minute, VaryCPUs: true, Post: c35Post,
+		Assumptions: []string{realStub, "the compiled program is read through the verif hook runtime.VerifCompiledProgram and rendered with bbq's own program printer plus the raw function / contract / variable / global / type tables", "the sweep over randomly constructed instructions is input generation and not part of this check; only instructions the compiler emitted are round-tripped"},
+		Rule:   "the same 6 (thorough: 60) seeded histories over all operation families are compiled in every worker process (16 processes under CPU affinity 1/4/16 and GOMAXPROCS 1/2/4/16) on 5 VM replicas each (cold/warm cache, reused/fresh environment, with/without peephole); after every step the rendering of every cached compiled program is compared between replicas, a digest of all renderings between processes, and every emitted instruction is encoded, decoded and re-encoded; an evaluation is one (history, process) pair, non-trivial if more than 3 programs were rendered",
+		Worker: c35Worker}
+	checks["C51"] = &CheckSpec{Prop: "C51", Level: "exploration", QuickBudget: 25 * time.Second, ThoroughBudget: 8 * time.Minute,
+		Assumptions: []string{"real code: common/orderedmap, common/persistent, common/intervalst, common/bimap, common/list; nothing is stubbed; there are no faults to inject (pure in-memory code): the only nondeterminism, the interval tree's math/rand insertion, is seeded (go:debug randseednop=0 + rand.Seed) and varied over 4 tree shapes per sequence"},
+		Rule:   "seeded operation sequences of 50..3000 (thorough: ..5000) operations per collection against list / map models with a full cross-check (iteration order both ways, lookups, sizes, set algebra, parent chains and clones of persistent sets) after every operation; distinct by (collection, seed); non-trivial from 50 operations on; a failing sequence is shrunk to its shortest failing prefix",
+		Worker: c51Worker}
 	checks["C36"] = &CheckSpec{Prop: "C36", Level: "exploration", QuickBudget: 60 * time.Second, ThoroughBudget: 12 * time.Minute, Workers: 8,
 		Assumptions: []string{realStub, "mode R does not replay a schedule (rr is unavailable): a race report is a happens-before fact and therefore never a false alarm; the replay file carries job and report and replay re-runs the job up to 10 times"},
 		Rule:   "jobs drawn from the seed: 2..16 worker goroutines x 2..4 generated scripts each (10 templates: entitlement-mapped member access, casts and run-time types, Account built-ins, attachments, resources and events, ill-typed and failing programs) over a shared program cache; 1/3 of the jobs run in mode S (seeded scheduler, one worker released per runtime.Interface callback, executed twice to confirm the schedule is a function of the seed), 2/3 in mode R (fresh -race process with cold caches, GOMAXPROCS 2/4/16); oracle: every script behaves as when run alone (after the concurrent phase), no race report, no crash; distinct by (mode, engine, workers, seed)",
@@ -525,6 +534,19 @@ func aggregate(spec *CheckSpec, tier string, seed int64, results []WorkResult, w
 			}
 			if !isKnown {
 				viols = append(viols, r)
+			}
+		}
+	}
+	if spec.Post != nil {
+		for _, v := range spec.Post(extra) {
+			vc := v
+			rf := &ReplayFile{Property: spec.Prop, Oracle: v.Oracle, VerifSeed: seed, Tier: tier, Kind: "post", Violation: &vc}
+			path := WriteReplay(filepath.Join(verifDir(), "replay"), rf, "cross-process")
+			viols = append(viols, WorkResult{Violations: []Violation{v}, Replay: path})
+		}
+		for k := range extra {
+			if strings.HasPrefix(k, "digest:") {
+				delete(extra, k)
 			}
 		}
 	}
